@@ -287,11 +287,8 @@ func (g *coreGen) expr(d int) *cExpr {
 			dv = &cExpr{k: "lit", n: int64(1 + g.r.Intn(7))}
 		}
 		dd := g.expr(d - 1)
-		if dd.isConst() {
-			// a constant dividend with a constant divisor is folded at compile time: listed finding class
-			// "const-int-division" (C03); keep the dividend non-constant here
-			dd = g.v()
-		}
+		// (a constant dividend over a constant divisor is folded at compile time as an integer
+		// quotient since the repair of quoConst, F48 fixed)
 		return &cExpr{k: "bin", op: op, a: dd, b: dv}
 	default:
 		op := []string{"add", "add", "sub", "mul", "and", "or", "xor"}[g.r.Intn(7)]
